@@ -95,6 +95,56 @@ theorem knapsack_dp_eq_knapBest (items : List (Nat × Rat)) (cap : Nat) :
   rw [← p4] at h1
   exact Rat.le_antisymm h1 (by rw [hv]; exact hle)
 
+/-- **Exact scaling keeps optimality.**  If the integer weights / capacity handed to the DP are the
+original rational weights / capacity times a positive scale (nothing lost – the situation in which
+the repaired `solve_knapsack` reports OPTIMAL), the DP's selection is feasible and optimal for the
+*original* instance. -/
+theorem knapsack_scaled_optimal (items : List (Rat × Rat)) (cap scale : Rat) (hs : 0 < scale)
+    (iw : List Nat) (icap : Nat) (hlen : iw.length = items.length)
+    (hw : ∀ i, i < items.length → ((iw.getD i 0 : Nat) : Rat) = (items.getD i (0, 0)).1 * scale)
+    (hc : (icap : Rat) = cap * scale) :
+    KnapFeasible items cap (knapInt ratOps (iw.zip (items.map (·.2))) icap).1 ∧
+    ∀ sel, KnapFeasible items cap sel →
+      selV items sel ≤ selV items (knapInt ratOps (iw.zip (items.map (·.2))) icap).1 := by
+  obtain ⟨_, p1, p2, p3, p4, p5⟩ := knapsack_dp_optimal (iw.zip (items.map (·.2))) icap
+  have hl : (iw.zip (items.map (·.2))).length = items.length := by simp [hlen]
+  rw [hl] at p2 p5
+  have hss := scaled_sums items scale iw hlen hw
+  have mono : ∀ a : Rat, a * scale ≤ cap * scale ↔ a ≤ cap := by
+    intro a
+    constructor
+    · intro h
+      apply Rat.not_lt.1
+      intro hlt
+      have := Rat.mul_lt_mul_of_pos_right hlt hs
+      grind
+    · intro h
+      exact Rat.mul_le_mul_of_nonneg_right h (Rat.le_of_lt hs)
+  obtain ⟨a, b⟩ := hss _ p2
+  refine ⟨⟨p1.imp (fun h => Nat.ne_of_lt h), p2, ?_⟩, fun sel hf => ?_⟩
+  · rw [← mono, ← a, ← hc, Rat.natCast_le_natCast]; exact p3
+  · obtain ⟨a', b'⟩ := hss sel hf.inRange
+    have : selWN (iw.zip (items.map (·.2))) sel ≤ icap := by
+      rw [← Rat.natCast_le_natCast, a', hc, mono]; exact hf.fits
+    have := p5 sel hf.nodup hf.inRange this
+    rw [← b, ← b', p4]; exact this
+
+/-- `_greedy_fallback` (the branch taken when scaling made the DP answer overweight) returns a
+feasible selection whatever the ratios and the sort did. -/
+theorem greedy_fallback_valid (items : List (Rat × Rat)) (cap : Rat) (minimize : Bool) (hcap : 0 ≤ cap) :
+    KnapFeasible items cap (greedyFallback ratOps items cap minimize) := by
+  unfold greedyFallback
+  simp only
+  generalize hord : (List.range items.length).mergeSort _ = order
+  have hperm : order.Perm (List.range items.length) := by rw [← hord]; exact List.mergeSort_perm _ _
+  obtain ⟨p, h1, h2, h3, h4⟩ := greedyScan_spec items order cap [] hcap
+  simp only [List.reverse_nil, List.nil_append] at h1
+  rw [h1]
+  have hp := List.mergeSort_perm p (fun i j => decide (i ≤ j))
+  refine ⟨hp.nodup_iff.2 (h2.nodup (hperm.nodup_iff.2 List.nodup_range)), ?_, ?_⟩
+  · intro i hi; exact h3 i (hp.mem_iff.1 hi)
+  · rw [selW_perm items hp]; exact h4
+
 /-! ## Bin packing -/
 
 /-- The Boolean checker evaluated on the implementation's assignments decides exactly
@@ -170,6 +220,35 @@ theorem binpack_valid (sizes : List Rat) (cap : Rat) (useBest dec : Bool)
     show (packRun ratOps sizes cap useBest dec).bins.length ≤ k'
     omega
 
+/-- The inputs excluded by the hypotheses of `binpack_valid` are exactly those the code rejects or
+answers trivially: no items gives `()`, 0 bins, OPTIMAL; a non-positive capacity, an item larger
+than the capacity or a negative size raises `ValueError`. -/
+theorem pack_excluded (sizes : List Rat) (cap : Rat) (useBest dec : Bool) :
+    (sizes = [] → pack ratOps sizes cap useBest dec = .ok ⟨.OPTIMAL, [], 0⟩) ∧
+    (sizes ≠ [] → (cap ≤ 0 ∨ ∃ s ∈ sizes, cap < s ∨ s < 0) →
+      pack ratOps sizes cap useBest dec = .error "ValueError") := by
+  constructor
+  · rintro rfl; rfl
+  · intro hn h
+    have h0 : sizes.length ≠ 0 := fun h => hn (List.eq_nil_of_length_eq_zero h)
+    unfold pack
+    rw [if_neg h0]
+    by_cases hc : cap ≤ 0
+    · have : ratOps.le cap ratOps.zero = true := decide_eq_true hc
+      rw [this]; rfl
+    · have h1 : ratOps.le cap ratOps.zero = false := decide_eq_false hc
+      rcases h with h | ⟨s, hs, hbad⟩
+      · exact absurd h hc
+      · have : sizes.any (fun s => ratOps.lt cap s || ratOps.lt s ratOps.zero) = true := by
+          rw [List.any_eq_true]
+          refine ⟨s, hs, ?_⟩
+          rcases hbad with hb | hb
+          · have : ratOps.lt cap s = true := decide_eq_true hb
+            simp [this]
+          · have : ratOps.lt s ratOps.zero = true := decide_eq_true hb
+            simp [this]
+        rw [h1, this]; rfl
+
 /-! ## Non-vacuity -/
 
 /-- textbook instance (weights 1,2,3, values 6,10,12, capacity 5): the DP selects items 1,2 -/
@@ -179,6 +258,11 @@ example : knapBest [(1, 6), (2, 10), (3, 12)] 5 = some 22 := by decide +kernel
 example : knapBest (castItems [(1, 6), (2, 10), (3, 12)]) ((5 : Nat) : Rat) = some 22 := by
   rw [knapsack_dp_eq_knapBest]; decide +kernel
 example : chkKnapsack [((1 : Rat) / 2, 3), (0, 1)] 0 [1] 1 = true := by decide +kernel
+/-- exact scaling is possible: weights 0.1, 0.2, 0.3, capacity 0.5, scale 10 -/
+example := knapsack_scaled_optimal [((1 : Rat) / 10, 10), ((2 : Rat) / 10, 20), ((3 : Rat) / 10, 30)]
+  ((5 : Rat) / 10) 10 (by decide +kernel) [1, 2, 3] 5 rfl (by decide +kernel) (by decide +kernel)
+example : KnapFeasible [(3, 5), (2, 4)] 4 (greedyFallback ratOps [(3, 5), (2, 4)] 4 false) :=
+  greedy_fallback_valid _ _ _ (by decide +kernel)
 /-- items of sizes 4,8,1,4,0 into bins of 10 with best-fit: two bins (the 1 goes next to the 8) -/
 example : (pack ratOps [4, 8, 1, 4, 0] 10 true false).toOption.map (fun r => (r.asg, r.k)) =
     some ([0, 1, 1, 0, 0], 2) := by decide +kernel
